@@ -1,6 +1,6 @@
 PROPERTY = "C02"
 LEVEL = "proof"
-LEAN_MODULES = ["CifModel.Props.C02", "CifModel.Props.C02Doc", "CifModel.Props.C02Total", "CifModel.Props.C02Column", "CifModel.Props.C02Lines", "CifModel.Props.C02Hyp", "CifModel.Props.ReviewC02"]
+LEAN_MODULES = ["CifModel.Props.C02", "CifModel.Props.C02Doc", "CifModel.Props.C02Total", "CifModel.Props.C02Column", "CifModel.Props.C02Lines", "CifModel.Props.C02Hyp", "CifModel.Props.C02Clean", "CifModel.Props.ReviewC02"]
 REQUIRED = ["CifModel.C02_text_protocol", "CifModel.C02_fold_line_progress", "CifModel.C02_text_total",
             "CifModel.C02_flags_semis", "CifModel.C02_char_text_roundtrip",
             "CifModel.C02_analysis_facts", "CifModel.C02_write_char_text",
@@ -10,10 +10,12 @@ REQUIRED = ["CifModel.C02_text_protocol", "CifModel.C02_fold_line_progress", "Ci
             "CifModel.C02_roundtrip_doc", "CifModel.C02_quoted_status", "CifModel.C02_output_units", "CifModel.C02_roundtrip_doc_instance", "CifModel.C02_roundtrip_doc_sample",
             "CifModel.C02_roundtrip_doc_nested",
             "CifModel.C02_key_refused_iff", "CifModel.C02_key_step_is_the_loop", "CifModel.C02_total_iff",
-            "CifModel.C02_presented_key_writable", "CifModel.C02_refused_key_unwritable_partial",
-            "CifModel.C02_cex_key_first_line", "CifModel.C02_cex_key_first_line_refused", "CifModel.C02_key_boundary",
+            "CifModel.C02_presented_key_writable", "CifModel.C02_refused_key_unwritable",
+            "CifModel.C02_key_first_line_accepted", "CifModel.C02_key_first_line_written", "CifModel.C02_key_boundary",
+            "CifModel.C02_cr_refused", "CifModel.C02_disallowed_char_refused", "CifModel.C02_write_char_opening_tests",
+            "CifModel.C02_success_implies_clean",
             "CifModel.C02_last_column_exact", "CifModel.C02_last_column_exact_doc", "CifModel.C02_lastLineLength_spec",
-            "CifModel.C02_clean_of_line_hypotheses", "CifModel.C02_cex_column_cr", "CifModel.C02_cex_cr_written_raw",
+            "CifModel.C02_clean_of_line_hypotheses", "CifModel.C02_cex_column_cr",
             "CifModel.C02_line_bound_chars", "CifModel.C02_line_hypotheses_chars", "CifModel.C02_charLength_le", "CifModel.C02_cex_line_units",
             "CifModel.C02_roundtrip_doc_nl", "CifModel.C02_line_bound_of_valid",
             "CifModel.C02_cex_hypotheses", "CifModel.C02_empty_loop_refused"]
